@@ -103,6 +103,43 @@ Theorem C09_total : forall role u b q u' b' o, lenZ (b_dir b) < 2147483648 * 128
 Proof. exact total_after. Qed.
 Print Assumptions C09_total.
 
+(* ... whatever condition the shared memory around the board cache is in when the post is made. post_shm is the post
+   with that memory explicit (Model/C09.v: set_btotal mirrors cache.SetBTotal): sh carries Shm.BBusyState (the
+   "board cache is being loaded" flag, which a loader that went away leaves set for good), the per-board busy
+   stamps Shm.BusyStateB and Shm.LastPostTime; the old Shm.Total is b_total of the board in st. For EVERY value
+   of all of them: SetBTotal returns no error, the post is exactly the post of [post] (index, files, counters,
+   outcome: the theorems above apply), the cached count equals the index length (old count + 1 entry), the busy
+   flags are not written, LastPostTime of the board becomes the time in the new entry's name and that of every other
+   board stays *)
+Theorem C09_total_any_shared_state : forall sh st q sh' st' o err, in_range q -> req_ok st q = true ->
+  lenZ (b_dir (brd st (Z.to_nat (q_board q)))) < 2147483648 * 128 - 128 ->
+  post_shm sh st q = Ok (sh', st', o, err) ->
+  let bi := Z.to_nat (q_board q) in
+  err = false /\ post st q = Ok (st', o) /\
+  b_total (brd st' bi) = lenZ (b_dir (brd st' bi)) / 128 /\
+  b_total (brd st' bi) = lenZ (b_dir (brd st bi)) / 128 + 1 /\
+  sh_bbusy sh' = sh_bbusy sh /\ sh_busyb sh' = sh_busyb sh /\
+  length (sh_lastpost sh') = length (sh_lastpost sh) /\
+  (forall j, j <> bi -> nth j (sh_lastpost sh') 0 = nth j (sh_lastpost sh) 0) /\
+  exists t2 r2, o_fn o = mk_name 77 t2 r2 /\ 1000000000 <= t2 < 2147483648 /\
+    ((bi < length (sh_lastpost sh))%nat -> nth bi (sh_lastpost sh') 0 = t2).
+Proof. exact post_shm_spec. Qed.
+Print Assumptions C09_total_any_shared_state.
+
+(* histories under any such condition: over every sequence of posts SetBTotal never returns its error, the states
+   are those of post_seq (C09_sequence applies), the busy flags keep their values, and at the end every board that
+   was posted to — and every board whose count was in sync before — has its cached count equal to its index length *)
+Theorem C09_sequence_any_shared_state : forall qs sh st sh' st' os err,
+  Forall in_range qs -> forallb (req_ok st) qs = true ->
+  (forall i, lenZ (b_dir (brd st i)) + 128 * lenZ qs < 2147483648 * 128) ->
+  post_seq_shm sh st qs = Ok (sh', st', os, err) ->
+  err = false /\ post_seq st qs = Ok (st', os) /\
+  sh_bbusy sh' = sh_bbusy sh /\ sh_busyb sh' = sh_busyb sh /\
+  (forall i, b_total (brd st i) = lenZ (b_dir (brd st i)) / 128 \/ In i (map (fun q => Z.to_nat (q_board q)) qs) ->
+             b_total (brd st' i) = lenZ (b_dir (brd st' i)) / 128).
+Proof. exact sequence_shm. Qed.
+Print Assumptions C09_sequence_any_shared_state.
+
 (* the author's post counter rises by one (a uint32), nothing else of the record changes *)
 Theorem C09_numposts : forall role u b q u' b' o, post_on role u b q = Ok (u', b', o) ->
   u_numposts u' = (u_numposts u + 1) mod 4294967296 /\
